@@ -90,11 +90,17 @@ void harness_no_answer(void)
 #endif
 	scn_build_end();
 	int r = dispatch(&A, req);
-	CHECK(r >= 0, "C02.message_keeps_connection");
+#if SHAPE == 0
+	CHECK(r >= 0, "C02.message_keeps_connection");        /* a well-formed notification is an ordinary request */
+#else
+	CHECK(r == 0 || r == -1, "C06.odd_message_costs_at_most_the_senders_connection");
+#endif
 #if SHAPE <= 3
 	CHECK(nlog == 0, "C02.notifications_and_responses_are_never_answered");
 #else
-	CHECK(nlog == 1 && LOG[0].is_error && LOG[0].id_int == 9 && LOG[0].to == &A, "C02.malformed_object_with_id_gets_one_error");
+	/* an object that is neither request nor response: not a request object, so no answer is owed; if one is sent it is
+	   a single error for the sender carrying the id */
+	CHECK(nlog <= 1 && (nlog == 0 || (LOG[0].kind == K_RESPONSE && LOG[0].is_error && !LOG[0].has_result && LOG[0].id_int == 9 && LOG[0].to == &A)), "C02.malformed_object_is_answered_with_at_most_one_error");
 #endif
 #if SHAPE == 0
 	struct element *e = element_table_get("a");
@@ -171,10 +177,15 @@ void harness_batch_garbage(void)
 	scn_build_end();
 	long before = verif_live_blocks;
 	int r = dispatch(&A, batch);
-	CHECK(r == -1, "C11.malformed_batch_costs_the_sender_its_connection");
-	CHECK(nlog == 1 && LOG[0].id_int == 1 && LOG[0].has_result, "C02.members_before_the_garbage_were_answered");
+	/* the garbage member costs at most the sender's connection (today: the connection is dropped, r == -1; not demanded) */
+	CHECK(r == 0 || r == -1, "C06.malformed_batch_costs_at_most_the_senders_connection");
+	CHECK(nlog >= 1 && LOG[0].id_int == 1 && LOG[0].has_result && LOG[0].to == &A, "C02.members_before_the_garbage_were_processed_and_answered_in_order");
+	/* members after it: either not processed at all, or processed and answered - never processed silently or answered without effect */
 	struct element *e = element_table_get("a");
-	CHECK(e && e->value->valueint == v, "C02.members_after_the_garbage_are_not_processed");
+	int third_answered = 0; for (int i = 1; i < nlog; i++) if (LOG[i].kind == K_RESPONSE && LOG[i].id_int == 3) third_answered++;
+	CHECK(third_answered <= 1 && (third_answered == 1) == (e == 0), "C02.member_after_the_garbage_is_answered_iff_processed");
+	if (e) CHECK(e->value->valueint == v, "C02.unprocessed_member_left_the_element_alone");
+	if (r == -1) REACH("closed");
 	(void)before;
 	WITNESS_END();
 }
